@@ -16,6 +16,13 @@ CHECKS = {
              "zero-amount and bad-price obligations are discharged by z3 on every feasible path (all linear).",
         technique="symbolic execution of bt/core.py on rational-function values, z3 (QF_LIRA) per path, concrete replay of models",
         ref="DESIGN.md §3 C05"),
+    'C01': dict(
+        text="Bounded symbolic execution of the real StrategyBase/SecurityBase update, adjust, allocate, transact, rebalance, close, flatten on "
+             "flat, lazy-child and nested trees: from an arbitrary synced pre-state (symbolic capital and positions) every length-2 (thorough: 3) "
+             "sequence of operation kinds is executed with symbolic arguments and the balance-sheet identities and recorded rows are proved "
+             "after every operation on every feasible path.",
+        technique="symbolic execution of bt/core.py on rational-function values over operation sequences, z3 per path, concrete replay of models",
+        ref="DESIGN.md §3 C01"),
 }
 
 NOT_YET = "check not built yet in this session (planned in DESIGN.md §3); will move to checks when its harness lands"
